@@ -35,10 +35,47 @@ void h_zero_frequencies(void)
     rc = vnacal_new_set_frequency_vector(vnp, fv);
     REACH("set_frequency_vector returned");
     CHECK(rc == 0 || rc == -1, "returns 0 or -1");
+#ifdef ZERO_M_ERROR
+    {	/* a noise model on its own two-point grid: the calibration's empty vector must not be read */
+	double nfv[2] = { 1.0e9, 2.0e9 }, nf[2] = { 1.0e-3, 1.0e-3 };
+
+	rc = vnacal_new_set_m_error(vnp, nfv, 2, nf, NULL);
+	REACH("set_m_error on a calibration without frequencies returned");
+	CHECK(rc == 0 || rc == -1, "returns 0 or -1");
+    }
+#endif
     free(fv);
     vnacal_new_free(vnp);
     vnacal_free(vcp);
 }
+
+#ifdef EMPTY_CALIBRATION
+/* a calibration with zero frequencies in the table: the queries and range bounds must not read its empty vector */
+void h_empty_calibration(void)
+{
+    vnacal_t *vcp;
+    vnacal_calibration_t *calp;
+    double v;
+    int ci;
+
+    ghost_err_reset();
+    vcp = vnacal_create(verif_error_fn, NULL);
+    ASSUME(vcp != NULL);
+    calp = _vnacal_calibration_alloc(vcp, VNACAL_T8, 1, 1, 0, 3);
+    ASSUME(calp != NULL);
+    ci = _vnacal_add_calibration_common("h", vcp, calp, "c");
+    ASSUME(ci >= 0);
+    CHECK(vnacal_get_frequencies(vcp, ci) == 0, "the calibration has no frequencies");
+    v = vnacal_get_fmin(vcp, ci);
+    REACH("fmin of an empty calibration returned");
+    v = vnacal_get_fmax(vcp, ci);
+    v = _vnacal_calibration_get_fmin_bound(calp);
+    CHECK(v == HUGE_VAL || v != v || v > 1.0e300, "no finite frequency lies above the lower bound of an empty calibration");
+    v = _vnacal_calibration_get_fmax_bound(calp);
+    CHECK(v == -HUGE_VAL || v != v || v < -1.0e300, "nor below its upper bound");
+    vnacal_free(vcp);
+}
+#endif
 
 void h_add_scenario(void)
 {
